@@ -6,7 +6,10 @@ PID = 'C03'
 
 def items():
     extra = [s for s in secretkeys.scenarios() + messages.scenarios() if PID in s.props]
-    return [s for s in encryption.scenarios() if PID in s.props] + extra
+    # the passphrase-to-key derivation every passphrase-protected message depends on (full product of configurations: C12)
+    from contracts import s2k
+    kdf = [s for s in s2k.scenarios() if any(t in s.cid for t in ('[Iterated,SHA256,AES256,bytes]', '[Iterated,SHA1,CAST5,str]', '[Salted,SHA256,AES256,bytes]'))]
+    return [s for s in encryption.scenarios() if PID in s.props] + extra + kdf
 
 
 def run(tier='quick', seed=0, only=None):
